@@ -21,7 +21,7 @@ TRUSTED = [
 def standin(d):
     p = os.path.join(d, "standin.sh")
     with open(p, "w") as f:
-        f.write('#!/bin/sh\nfor a in "$@"; do printf "%s\\n" "$a" >> "$C19_LOG"; done\nprintf "%s\\n" "--END--" >> "$C19_LOG"\nexit ${C19_EXIT:-0}\n')
+        f.write('#!/bin/sh\nfor a in "$@"; do printf "%s\\n" "$a" >> "$C19_LOG"; done\nprintf "%s\\n" "--END--" >> "$C19_LOG"\ncase "$C19_EXIT" in sig*) kill -${C19_EXIT#sig} $$; sleep 5;; esac\nexit ${C19_EXIT:-0}\n')
     os.chmod(p, 0o755)
     return p
 
@@ -167,7 +167,7 @@ def run(tier, seed, replay):
         for _ in range(n):
             files = gen_patch(rnd)
             cases.append({"kind": "patch", "files": files, "text": render(files, rnd.choice(["\n", "\n", "\r\n"])), "p": rnd.randint(0, 3),
-                          "suffix": rnd.choice([".rs", ".rs", "", "lib.rs"]), "exit": rnd.choice([0, 0, 0, 1, 3])})
+                          "suffix": rnd.choice([".rs", ".rs", "", "lib.rs"]), "exit": rnd.choice([0, 0, 0, 1, 3, 101, "sig9", "sig6", "sig11"])})
         m = 60 if tier == "quick" else 600
         for _ in range(m):
             ctx = rnd.randint(0, 3)
@@ -204,7 +204,7 @@ def run(tier, seed, replay):
             lines = [l[:-1] if l.endswith("\r") else l for l in lines]       # BufRead::lines
             exprs.append("(run_invocation %d %s %s, run_exit %d %s %s %s)" % (
                 c["p"], coqterm.text(c["suffix"]), coqterm.render(lines), c["p"], coqterm.text(c["suffix"]),
-                "true" if c["exit"] == 0 else "false", coqterm.render(lines)))
+                "true" if c["exit"] == 0 else "false", coqterm.render(lines)))      # killed by a signal = not a success
         model = common.run_coq_cases("From V Require Import Base.Text C19.Model C19.Run.\nOpen Scope N_scope.", "", exprs, "c19", per_file=40)
     except Exception as e:
         log("C19: model evaluation failed: %s" % str(e)[-1500:])
@@ -240,7 +240,7 @@ def run(tier, seed, replay):
                     found += 1
             want_rc = 0 if (not exp or c["exit"] == 0) else 1
             if r["rc"] != want_rc:
-                if rep.violation("exit", {"case": show, "impl": r}, "exit status %d, expected %d (rustfmt stand-in exits %d, %d ranges)" % (r["rc"], want_rc, c["exit"], len(exp))):
+                if rep.violation("exit", {"case": show, "impl": r}, "exit status %d, expected %d (rustfmt stand-in ends with %s, %d ranges)" % (r["rc"], want_rc, c["exit"], len(exp))):
                     found += 1
         # ---- correspondence
         if model is not None:
@@ -266,7 +266,7 @@ def run(tier, seed, replay):
     step = max(1, len(cases) // 4)
     rep.coverage.update({
         "evaluations": len(cases), "distinct_nontrivial": len(nontrivial),
-        "rule": "(a) seeded structured patches (1..4 files, 0..4 hunks each, both spellings of a count of 1, function-context text containing '+digits' / '@@' / '+++', paths with 0..3 components, git preamble, timestamps, '\\ No newline' lines, CRLF) rendered to unified-diff text; (b) real diff -U0..3 -rN outputs of random file-tree version pairs; each with -p 0..3 and a filter; the real rustfmt-format-diff binary runs a recording $RUSTFMT stand-in with a scripted exit status; argv and exit compared with the model and with ranges recomputed from the patch. non-trivial = at least one range expected; distinct by hash",
+        "rule": "(a) seeded structured patches (1..4 files, 0..4 hunks each, both spellings of a count of 1, function-context text containing '+digits' / '@@' / '+++', paths with 0..3 components, git preamble, timestamps, '\\ No newline' lines, CRLF) rendered to unified-diff text; (b) real diff -U0..3 -rN outputs of random file-tree version pairs; each with -p 0..3 and a filter; the real rustfmt-format-diff binary runs a recording $RUSTFMT stand-in with a scripted exit status (0, 1, 3, 101) or death by signal (KILL, ABRT, SEGV); argv and exit compared with the model and with ranges recomputed from the patch. non-trivial = at least one range expected; distinct by hash",
         "samples": [{k: v for k, v in cases[i].items() if k in ("text", "p", "suffix", "exit")} for i in range(0, len(cases), step)][:4],
         "correspondence_disagreements": len(disagreements),
         "traces_validated_against_impl": len(cases) if model is not None else 0,
